@@ -3,7 +3,8 @@
 package kube
 
 // C13 correspondence harness (Kubernetes endpoints handler): the real EventHandler with a recording update func.
-//   add <ip>… | del <ip>… | update <sameVersion 0/1> <ip>… | set <ip>…
+//   add <ip>… | del <ip>… | update <oldResourceVersion> <newResourceVersion> <ip>… | set <ip>…
+//   (resource versions are opaque strings for the handler; `-` stands for the empty string)
 //   => eps=<h.endpoints, sorted ids> updates=<update calls during the op> pub=<last published, sorted ids | none>
 
 import (
@@ -55,6 +56,22 @@ func c13Endpoints(ids []string, version string) *v1.Endpoints {
 	return ep
 }
 
+// c13NextVer: the numeric successor ("9" -> "10"); anything else restarts at 1.
+func c13NextVer(v string) string {
+	n, err := strconv.Atoi(v)
+	if err != nil {
+		return "1"
+	}
+	return strconv.Itoa(n + 1)
+}
+
+func c13Ver(tok string) string {
+	if tok == "-" {
+		return ""
+	}
+	return tok
+}
+
 func c13KubeGen(r *verifh.Rng) []verifh.Section {
 	var secs []verifh.Section
 	nsec := verifh.Scale(80, 1500)
@@ -69,6 +86,7 @@ func c13KubeGen(r *verifh.Rng) []verifh.Section {
 			return strings.Join(out, " ")
 		}
 		var ops []string
+		ver := r.PickS("1", "7", "8", "9", "97", "98", "99", "998")
 		nops := r.Range(3, verifh.Scale(12, 25))
 		for j := 0; j < nops; j++ {
 			switch x := r.Intn(100); {
@@ -77,11 +95,33 @@ func c13KubeGen(r *verifh.Rng) []verifh.Section {
 			case x < 45:
 				ops = append(ops, strings.TrimSpace("del "+ips()))
 			case x < 80:
-				same := 0
-				if r.Chance(1, 5) {
-					same = 1
+				// OnUpdate(old, new): the resource versions are a generator dimension of their own
+				o, n := ver, ver
+				switch y := r.Intn(100); {
+				case y < 30: // the next version
+					n = c13NextVer(ver)
+				case y < 50: // a version that gains a digit: 9 -> 10, 99 -> 100, …
+					o = r.PickS("9", "99", "999", "9999")
+					n = c13NextVer(o)
+				case y < 65: // resync: the same version
+				case y < 77: // a replayed stale update: the version decreases (numerically; "9" after "10" also grows as a string)
+					o = r.PickS("10", "100", "20", "31", "1000")
+					n = r.PickS("9", "99", "15", "7", "3")
+				case y < 87: // not a number
+					o = r.PickS("abc", "v2", "1a", ver)
+					n = r.PickS("abd", "v10", "1b", "x", o)
+				case y < 94: // empty
+					if r.Chance(1, 2) {
+						o = "-"
+						n = r.PickS("-", "1", "7")
+					} else {
+						n = "-"
+					}
+				default: // jumps
+					n = strconv.Itoa(r.Range(1, 2000))
 				}
-				ops = append(ops, strings.TrimSpace(fmt.Sprintf("update %d %s", same, ips())))
+				ver = n
+				ops = append(ops, strings.TrimSpace(fmt.Sprintf("update %s %s %s", o, n, ips())))
 			default:
 				ops = append(ops, strings.TrimSpace("set "+ips()))
 			}
@@ -104,21 +144,21 @@ func TestVerifC13Kube(t *testing.T) {
 				pub += "!dup"
 			}
 		})
-		ver := 1
+		ver := "1"
 		step := func(op []string) string {
 			switch op[0] {
 			case "add":
-				h.OnAdd(c13Endpoints(op[1:], strconv.Itoa(ver)), false)
+				h.OnAdd(c13Endpoints(op[1:], ver), false)
 			case "del":
-				h.OnDelete(c13Endpoints(op[1:], strconv.Itoa(ver)))
+				h.OnDelete(c13Endpoints(op[1:], ver))
 			case "update":
-				old := c13Endpoints(nil, strconv.Itoa(ver))
-				if op[1] == "0" {
-					ver++
+				if len(op) < 3 {
+					return "bad-op"
 				}
-				h.OnUpdate(old, c13Endpoints(op[2:], strconv.Itoa(ver)))
+				ver = c13Ver(op[2])
+				h.OnUpdate(c13Endpoints(nil, c13Ver(op[1])), c13Endpoints(op[3:], ver))
 			case "set":
-				h.Update(c13Endpoints(op[1:], strconv.Itoa(ver)))
+				h.Update(c13Endpoints(op[1:], ver))
 			default:
 				return "bad-op"
 			}
